@@ -11,6 +11,7 @@ Definition zcheck_cop := check_cop Z 0%Z 1%Z Z.add Z.mul Z.opp Z.eqb.
 Definition zcheck_capply := check_capply Z 0%Z Z.add Z.mul Z.eqb.
 Definition zcheck_r1 := check_r1 Z 0%Z Z.add Z.mul Z.eqb.
 Definition zcheck_r3 := check_r3 Z 0%Z Z.add Z.mul Z.eqb.
+Definition zcheck_trunc := check_trunc Z 0%Z Z.add Z.mul Z.ltb.
 
 (* short constructor names for the generated literals *)
 Definition Sc := LScal Z.
